@@ -28,8 +28,12 @@ AXIS_SHAPE = {
     "xml_xpath::eval::descendant_and_self": ({"xml_xpath::eval::descendant"}, set()),
     "xml_xpath::eval::following_sibling": ({"next_sibling"}, {"previous_sibling"}),
     "xml_xpath::eval::preceding_sibling": ({"previous_sibling"}, {"next_sibling"}),
-    "xml_xpath::eval::following": ({"xml_xpath::eval::following_sibling", "xml_xpath::eval::descendant_and_self"}, {"xml_xpath::eval::preceding_sibling"}),
-    "xml_xpath::eval::preceding": ({"xml_xpath::eval::preceding_sibling", "xml_xpath::eval::descendant_and_self"}, {"xml_xpath::eval::following_sibling"}),
+    # XPath 1.0 2.2: following = all nodes after the context node in document order, excluding descendants
+    #   = for every ancestor-or-self: its following siblings with their descendants (preceding: symmetric, ancestors excluded)
+    "xml_xpath::eval::following": ({"xml_xpath::eval::ancestor_and_self", "xml_xpath::eval::following_sibling", "xml_xpath::eval::descendant_and_self"},
+                                   {"xml_xpath::eval::preceding_sibling"}),
+    "xml_xpath::eval::preceding": ({"xml_xpath::eval::ancestor_and_self", "xml_xpath::eval::preceding_sibling", "xml_xpath::eval::descendant_and_self"},
+                                   {"xml_xpath::eval::following_sibling"}),
     "xml_xpath::eval::namespace": ({"in_scope_namespace"}, {"attributes", "child_nodes"}),
 }
 
